@@ -54,6 +54,8 @@ type rcGenState struct {
 	used  map[string]bool // normalised sequences already bound (program-wide)
 	files map[string][]rcNode
 	nfile int
+	// a `set keymap` has been generated earlier in program order (in any branch)
+	keymapSeen bool
 }
 
 // one key of a sequence, with its notation
@@ -201,6 +203,7 @@ func (g *rcGenState) genNodes(depth, n int, allowKeymap bool) []rcNode {
 			name := pick(r, rcVarNames)
 			out = append(out, rcNode{Kind: "set", Name: name, Value: pick(r, rcVarKinds[name])})
 		case k < 13 && allowKeymap:
+			g.keymapSeen = true
 			out = append(out, rcNode{Kind: "keymap", Name: "keymap", Value: pick(r, rcKeymaps)})
 		case k < 17 && depth < 5:
 			nd := rcNode{Kind: "if"}
@@ -224,7 +227,8 @@ func (g *rcGenState) genNodes(depth, n int, allowKeymap bool) []rcNode {
 			out = append(out, rcNode{Kind: "blank", Value: pick(r, []string{"", "   ", "\t"})})
 		default:
 			// $include only while the keymap is certainly the default one (see DESIGN C13)
-			if !allowKeymap || depth > 0 || g.nfile >= 3 {
+			// (also inside $if blocks, with more directives after it in the same block)
+			if !allowKeymap || g.keymapSeen || g.nfile >= 3 {
 				out = append(out, g.genBind())
 				continue
 			}
